@@ -1,0 +1,54 @@
+//go:build verif
+
+// Contracts for package main (rtcmlogger), checked by /verif/govc (see /verif/DESIGN.md).
+// This file contains only comments; it is compiled only with -tags verif and
+// has no effect on the package.
+
+package main
+
+// Copy loop: standard input is a prophecy (rin(os.Stdin) = every byte it will deliver),
+// standard output a ghost log.  At every iteration, and when the loop ends, what has
+// been written to stdout is exactly what has been consumed from stdin, and the blocks
+// sent to the recorder tile the consumed input (each block a private copy).
+//@ func readAndWrite
+//@ requires[C07] cfg != nil && recorderChannel != nil
+//@ requires[C16] !closed(recorderChannel) && os.Stdin != nil && os.Stdout != nil && os.Stdin != os.Stdout
+//@ let c0 = gc("rdbytes", os.Stdin)
+//@ let w0 = gc("wr", os.Stdout)
+//@ let n0 = sentn(recorderChannel)
+//@ let in = rin(os.Stdin)
+//@ noterm the copy loop runs until standard input reports end of file
+//@ stamp recorderChannel: gc("rdbytes", os.Stdin)
+//@ modifies gc("rdbytes", os.Stdin), gc("rdcalls", os.Stdin), gc("wr", os.Stdout), gb("wr", os.Stdout), sent(recorderChannel), reportingReadErrors, reportingEventLogWriteErrors
+//@ ensures[C16] gc("wr", os.Stdout) - w0 == gc("rdbytes", os.Stdin) - c0
+//@ ensures[C16] forall(p, w0, gc("wr", os.Stdout), gb("wr", os.Stdout)[p] == in[c0 + p - w0])
+//@ ensures[C16] forall(j, 0, w0, gb("wr", os.Stdout)[j] == old(gb("wr", os.Stdout))[j])
+//@ ensures[C16] sentn(recorderChannel) >= n0 && ite(sentn(recorderChannel) == n0, c0, stamp(recorderChannel)[sentn(recorderChannel) - 1]) == gc("rdbytes", os.Stdin)
+//@ ensures[C16] forall(k, n0, sentn(recorderChannel), TileA(contents(sent(recorderChannel)[k]), offof(sent(recorderChannel)[k]), len(sent(recorderChannel)[k]), in, ite(k == n0, c0, stamp(recorderChannel)[k-1]), stamp(recorderChannel)[k]))
+//@ loop 1
+//@ invariant[C16] len(readBuffer) == 8096 && fresh(readBuffer)
+//@ invariant[C16] gc("wr", os.Stdout) - w0 == gc("rdbytes", os.Stdin) - c0 && gc("rdbytes", os.Stdin) >= c0
+//@ invariant[C16] forall(p, w0, gc("wr", os.Stdout), gb("wr", os.Stdout)[p] == in[c0 + p - w0])
+//@ invariant[C16] forall(j, 0, w0, gb("wr", os.Stdout)[j] == old(gb("wr", os.Stdout))[j])
+//@ invariant[C16] sentn(recorderChannel) >= n0 && ite(sentn(recorderChannel) == n0, c0, stamp(recorderChannel)[sentn(recorderChannel) - 1]) == gc("rdbytes", os.Stdin)
+//@ invariant[C16] forall(k, n0, sentn(recorderChannel), TileA(contents(sent(recorderChannel)[k]), offof(sent(recorderChannel)[k]), len(sent(recorderChannel)[k]), in, ite(k == n0, c0, stamp(recorderChannel)[k-1]), stamp(recorderChannel)[k]))
+//@ invariant[C16] forall(k, n0, sentn(recorderChannel), arrof(readBuffer) < arrof(sent(recorderChannel)[k]) && allocated(sent(recorderChannel)[k]))
+
+// Recorder: every block received on the channel is written to the writer with one Write
+// call, in order; gb("wroff", w)[c] is the offset in the writer's log at which call c wrote.
+// Hence the log grows by the concatenation of the blocks.
+//@ func recorder
+//@ requires[C07] cfg != nil
+//@ let w0 = gc("wr", writer)
+//@ let c0 = gc("wrcalls", writer)
+//@ let r0 = recvd(recorderChannel)
+//@ let blocks = feed(recorderChannel)
+//@ modifies recv(recorderChannel), gc("wr", writer), gb("wr", writer), gc("wrcalls", writer), gb("wroff", writer), reportingEventLogWriteErrors, reportingLogWriteErrors
+//@ ensures[C16] writer != nil && recorderChannel != nil ==> recvd(recorderChannel) == feedlen(recorderChannel) && gc("wrcalls", writer) - c0 == recvd(recorderChannel) - r0
+//@ ensures[C16] writer != nil && recorderChannel != nil ==> forall(k, r0, recvd(recorderChannel), WroteBlock(gb("wr", writer), gb("wroff", writer)[c0 + k - r0], contents(blocks[k]), offof(blocks[k]), len(blocks[k])) && gb("wroff", writer)[c0 + k - r0] == ite(k == r0, w0, gb("wroff", writer)[c0 + k - r0 - 1] + len(blocks[k-1])))
+//@ ensures[C16] writer != nil && recorderChannel != nil ==> gc("wr", writer) == ite(recvd(recorderChannel) == r0, w0, gb("wroff", writer)[gc("wrcalls", writer) - 1] + len(blocks[recvd(recorderChannel) - 1]))
+//@ loop 1
+//@ invariant[C16] writer != nil && recorderChannel != nil && recvd(recorderChannel) >= r0 && recvd(recorderChannel) <= feedlen(recorderChannel) && gc("wrcalls", writer) - c0 == recvd(recorderChannel) - r0
+//@ invariant[C16] forall(k, r0, recvd(recorderChannel), WroteBlock(gb("wr", writer), gb("wroff", writer)[c0 + k - r0], contents(blocks[k]), offof(blocks[k]), len(blocks[k])) && gb("wroff", writer)[c0 + k - r0] == ite(k == r0, w0, gb("wroff", writer)[c0 + k - r0 - 1] + len(blocks[k-1])) && gb("wroff", writer)[c0 + k - r0] + len(blocks[k]) <= gc("wr", writer) && gb("wroff", writer)[c0 + k - r0] >= w0)
+//@ invariant[C16] gc("wr", writer) == ite(recvd(recorderChannel) == r0, w0, gb("wroff", writer)[gc("wrcalls", writer) - 1] + len(blocks[recvd(recorderChannel) - 1]))
+//@ decreases[C07,C16] feedlen(recorderChannel) - recvd(recorderChannel)
